@@ -174,8 +174,11 @@ func (P *Program) RunJob(job *Job) *JobResult {
 					if pr.Uncertain {
 						res.UncertainOK++
 					}
-					if len(res.OKSamples) < 3 {
+					if len(res.OKSamples) < 3 && pr.Model != nil {
 						res.OKSamples = append(res.OKSamples, pr)
+						if len(res.OKSamples) >= 3 {
+							ex.okModels.Store(false)
+						}
 					}
 				case StDiscard:
 				default:
@@ -248,6 +251,10 @@ func (P *Program) runPath(job *Job, fn *ssa.Function, item WorkItem, sol *smt.So
 		switch r.(type) {
 		case targetPanic, fatalError:
 			lateModel = p.currentModelSafe()
+		case nil:
+			if ex.wantOKModel() {
+				lateModel = p.currentModelSafe()
+			}
 		}
 		sol.EndPath()
 		pr.Trace = p.trace
@@ -270,6 +277,16 @@ func (P *Program) runPath(job *Job, fn *ssa.Function, item WorkItem, sol *smt.So
 				pr.Msg = fmt.Sprintf("replay divergence: path ended with %d prefix decisions unused", len(p.prefix)-p.pos)
 			} else {
 				pr.Status = StOK
+				if lateModel != nil {
+					pr.Model = lateModel
+					func() {
+						defer func() { recover() }()
+						it.snapshotForReplay(pr.Model)
+					}()
+					if it.replay != nil {
+						pr.Replay = it.replay
+					}
+				}
 			}
 		case abort:
 			pr.Status = r.st
